@@ -381,8 +381,7 @@ impl TargetScheme for Operator {
 impl TargetScheme for Action {
     fn compile(&self, buffer: &mut String, ctx: &mut dyn SchemeManager) -> CResult {
         match self {
-            Action::DefaultPrint => buffer.push_str("(print-relative-path)"),
-            Action::Print => {
+            Action::DefaultPrint | Action::Print => {
                 let printer = ctx.get_printer(Some('\n'));
                 buffer.push_str(&format!("(call-with-relative-path {printer})"));
             }
